@@ -253,6 +253,11 @@ func rawPredict(t string) (string, string, int) {
 	return string(out), "", -1
 }
 
+var (
+	c17EscapeOffset = -1
+	c17EscapeFirst  string
+)
+
 func c17Eval(t *fw.T, c *fw.Case) {
 	kind, host, s := c.Meta["kind"], c.Meta["host"], c.Meta["s"]
 	switch kind {
@@ -317,6 +322,15 @@ func c17Eval(t *fw.T, c *fw.Case) {
 				t.Violation("bad-escape-accepted:"+host, fmt.Sprintf("a backslash before a byte other than backslash or quote (in %q) must be rejected; got %s; input %s", s, describe(o), fw.Short([]byte(doc), 300)))
 			} else if int(o.Index) != at && int(o.Index) != at+1 {
 				t.Violation("bad-escape-position:"+host, fmt.Sprintf("bad escape at byte %d (backslash) is reported at index %d: %s; input %s", at, o.Index, describe(o), fw.Short([]byte(doc), 300)))
+			} else {
+				// "at that byte" may be read as the backslash or as the byte it stands before: whichever it is, it is the
+				// same for every wrong escape (the first one seen in this process sets the convention)
+				off := int(o.Index) - at
+				if c17EscapeOffset < 0 {
+					c17EscapeOffset, c17EscapeFirst = off, s
+				} else if off != c17EscapeOffset {
+					t.Violation("bad-escape-position-inconsistent", fmt.Sprintf("wrong escapes are located inconsistently: in %q at the backslash+%d, in %q at the backslash+%d: %s; input %s", c17EscapeFirst, c17EscapeOffset, s, off, describe(o), fw.Short([]byte(doc), 300)))
+				}
 			}
 			t.Distinct(host + " raw bad-escape " + shapeOf(s))
 		case "unterminated":
